@@ -34,13 +34,18 @@ type feResult struct {
 	notes  []string
 	classes int
 	tracked []string
+	noRef   bool
 }
 
 func (r feResult) label() string {
+	n := r.name
 	if r.multi {
-		return r.name + "[multi]"
+		n += "[multi]"
 	}
-	return r.name
+	if r.noRef {
+		n += "[alone]"
+	}
+	return n
 }
 
 // subsumed: every behaviour of b is a behaviour of a (a's fields are equal or
@@ -70,7 +75,7 @@ func subsumedBy(b, a *State) bool {
 	return true
 }
 
-func exploreOne(prog *Program, spec feSpec, multi bool, workers int) feResult {
+func exploreOne(prog *Program, spec feSpec, multi bool, workers int, noRef bool) feResult {
 	res := feResult{spec: spec, multi: multi, name: spec.rel + "." + spec.typ}
 	m, err := ExtractMachine(prog, spec.rel, spec.typ, spec.roots)
 	if err != nil {
@@ -127,14 +132,14 @@ func exploreOne(prog *Program, spec feSpec, multi bool, workers int) feResult {
 		res.err = fmt.Errorf("%s: no start state for multi=%v", res.name, multi)
 		return res
 	}
-	res.dis, res.undec = Explore(m, keep, multi, &res.stats, workers)
+	res.dis, res.undec = Explore(m, keep, multi, &res.stats, workers, noRef)
 	res.undec = append(res.undec, m.in.undecided...)
 	res.classes = len(m.in.cls.list)
 	return res
 }
 
 // exploreFrontEnds runs the explorations concurrently.
-func exploreFrontEnds(prog *Program, specs []feSpec, modes []bool) []feResult {
+func exploreFrontEnds(prog *Program, specs []feSpec, modes []bool, noRef bool) []feResult {
 	type job struct {
 		spec  feSpec
 		multi bool
@@ -160,7 +165,8 @@ func exploreFrontEnds(prog *Program, specs []feSpec, modes []bool) []feResult {
 					out[i].err = fmt.Errorf("%s.%s: checker panic: %v", j.spec.rel, j.spec.typ, r)
 				}
 			}()
-			out[i] = exploreOne(prog, j.spec, j.multi, workers)
+			out[i] = exploreOne(prog, j.spec, j.multi, workers, noRef)
+			out[i].noRef = noRef
 		}(i, j)
 	}
 	wg.Wait()
@@ -238,7 +244,7 @@ func ruleC01(prog *Program, rep *Report) {
 	rep.Explain(engineAExplanation)
 	rep.Explain("C01 decides the accept language of oj.Parser (Parse, ParseReader), oj.Validator, oj.Tokenizer and gen.Parser with OnlyOne=true. Distinct non-trivial cases are product states; obligations are (state, byte class) steps plus end-of-input checks. Not covered: faithfulness of the compiled code to Go semantics; the BOM preamble is checked by rule A-bom; reader errors other than EOF.")
 	rep.Assumptions = append(rep.Assumptions, "Go semantics of the interpreted statement forms", "callbacks and handler methods do not modify the parser", "a type switch over a call result lists every dynamic type the callee returns")
-	results := exploreFrontEnds(prog, jsonFrontEnds, []bool{false})
+	results := exploreFrontEnds(prog, jsonFrontEnds, []bool{false}, false)
 	applyParseResults(rep, results, kindsAccept, "A-accept", 18)
 	ruleBOM(prog, rep)
 }
@@ -292,4 +298,76 @@ func ruleBOM(prog *Program, rep *Report) {
 			}
 		}
 	}
+}
+
+var senFrontEnds = []feSpec{
+	{"sen", "Parser", []string{"Parse", "ParseReader"}},
+	{"sen", "Tokenizer", []string{"Parse", "Load"}},
+}
+
+func union(ms ...map[string]bool) map[string]bool {
+	out := map[string]bool{}
+	for _, m := range ms {
+		for k := range m {
+			out[k] = true
+		}
+	}
+	return out
+}
+
+func init() {
+	rules["C03"] = ruleC03
+	rules["C06"] = ruleC06
+	rules["C07"] = ruleC07
+	rules["C09"] = ruleC09
+}
+
+func ruleC03(prog *Program, rep *Report) {
+	rep.Rules = append(rep.Rules,
+		"A-agree: each JSON front-end (oj.Parser, oj.Validator, oj.Tokenizer, gen.Parser) agrees with the common reference as an acceptor (single- and multi-document mode) and as an event source (value/token events emitted at the same byte, same kind); agreement with one reference implies pairwise agreement",
+		"A-chunk: a buffer refill is allowed between any two bytes of the exploration and every fast path guarded by the remaining buffer length is explored both taken and not taken, so agreement holds for every chunking",
+		"A-noarm: in sen.Parser and sen.Tokenizer explored alone, every action code a reachable (mode, byte) cell holds has a case in the dispatch switch (a missing case silently skips the byte in one sibling only)")
+	rep.Explain(engineAExplanation)
+	rep.Explain("C03 decides agreement of the strict-JSON front-ends as acceptors and event sources under every chunking, in single- and multi-document mode (the multi-document reference is: a sequence of JSON values optionally separated by whitespace; a top-level number ends at whitespace or end of input), and the structural part of sen.Parser/sen.Tokenizer agreement (no silently skipped action code). Not covered: equality of the value trees (values are Top in the abstract domain), alt.Builder reconstruction, Simplify, and JSON-subset-of-SEN acceptance (the SEN helpers' mode depends on the build stack, which the domain does not model).")
+	rep.Assumptions = append(rep.Assumptions, "Go semantics of the interpreted statement forms", "callbacks and handler methods do not modify the parser", "a type switch over a call result lists every dynamic type the callee returns")
+	results := exploreFrontEnds(prog, jsonFrontEnds, []bool{false, true}, false)
+	applyParseResults(rep, results, union(kindsAccept, kindsEvents), "A-agree", 18)
+	sres := exploreFrontEnds(prog, senFrontEnds, []bool{false, true}, true)
+	applyParseResults(rep, sres, map[string]bool{"no-arm": true}, "A-noarm", 12)
+	ruleReaderLoops(prog, rep)
+}
+
+func ruleC06(prog *Program, rep *Report) {
+	rep.Rules = append(rep.Rules,
+		"A-panic: no reachable (machine state, byte) of any of the six table-driven front-ends makes an arm index a constant string or the container stack out of range, slice the buffer beyond len(buf), or pop an empty container stack; no byte is re-dispatched forever (no-progress); every reachable table code has a case (JSON front-ends)")
+	rep.Explain(engineAExplanation)
+	rep.Explain("C06 (parser part) decides the panic surface that is visible in the finite control state of the six table-driven front-ends, for every reachable state and byte, JSON front-ends in product with the reference, SEN front-ends explored alone (over-approximated reachability). Explicit panic(...) calls are treated as thrown errors and handled by rule E-recover. Not covered here: index/nil safety of data the domain keeps as Top (build stack contents, number buffers), recursion depth.")
+	results := exploreFrontEnds(prog, jsonFrontEnds, []bool{false, true}, false)
+	applyParseResults(rep, results, kindsPanic, "A-panic", 18)
+	sres := exploreFrontEnds(prog, senFrontEnds, []bool{false, true}, true)
+	applyParseResults(rep, sres, map[string]bool{"panic": true, "no-progress": true}, "A-panic", 12)
+	ruleC06Extra(prog, rep)
+}
+
+func ruleC07(prog *Program, rep *Report) {
+	rep.Rules = append(rep.Rules,
+		"A-stale: at the first call of the dispatch function every control field (mode, next mode, literal index, flags, container stack) is either assigned by the public entry or definitely written on every machine path before it is read; a read of a value left over from a previous call is a violation")
+	rep.Explain(engineAExplanation)
+	rep.Explain("C07 (machine part): the entries Parse/ParseReader/Validate/ValidateReader/Load are interpreted from a state in which every control field holds a 'stale' value; the exploration reports any read of a stale value in a condition, index or switch tag. This discharges mode-guarded scratch fields without an exception list. Other carried state is checked by the C-reset rules below.")
+	results := exploreFrontEnds(prog, jsonFrontEnds, []bool{false, true}, false)
+	applyParseResults(rep, results, kindsStale, "A-stale", 18)
+	sres := exploreFrontEnds(prog, senFrontEnds, []bool{false, true}, true)
+	applyParseResults(rep, sres, kindsStale, "A-stale", 12)
+	ruleC07Extra(prog, rep)
+}
+
+func ruleC09(prog *Program, rep *Report) {
+	rep.Rules = append(rep.Rules,
+		"A-errpos: every error raised inside the dispatch loop passes the loop cursor of the dispatched byte (off0+0) to the error constructor, and errors are raised exactly at the byte where the reference dies (C01 synchrony): together 'first offending byte'",
+		"A-eofpos: whenever a buffer can end inside an arm (empty or exhausted scan) the cursor is left at exactly len(buf), so the end-of-input error is positioned just past the last byte")
+	rep.Explain(engineAExplanation)
+	rep.Explain("C09 decides the structural facts the reported position depends on: cursor argument of every error, cursor at buffer exhaustion, newline bookkeeping, rebasing of the newline offset between reader buffers, and use of one error constructor. Not covered: arithmetic of the column beyond these facts; BOM offset.")
+	results := exploreFrontEnds(prog, jsonFrontEnds, []bool{false, true}, false)
+	applyParseResults(rep, results, union(kindsPosition, map[string]bool{"accepts-dead": true, "rejects-live": true}), "A-errpos", 18)
+	ruleC09Extra(prog, rep)
 }
